@@ -498,7 +498,7 @@ func (s seqState) class() string {
 }
 
 func (s seqState) show() []string {
-	var n []string
+	n := []string{}
 	for _, m := range s.Muts {
 		n = append(n, seqMutators[m].Show)
 	}
